@@ -350,6 +350,36 @@ class Prov:
         return ("call", key, c["name"], args)
 
 
+def reroot_outer(t, parent):
+    """rewrite the roots of a tree evaluated in `parent` so that they stay distinguishable (and named) when the
+    tree is substituted into a closure body"""
+    k = t[0]
+    if k == "path":
+        r = t[1]
+        if r[0] == "arg":
+            return ("path", ("outer", parent.local_name(r[1]) or "arg%d" % r[1]), t[2])
+        if r[0] == "local":
+            return ("path", ("outer", parent.local_name(r[1]) or "_%d" % r[1]), t[2])
+        return t
+    if k == "call":
+        return ("call", t[1], t[2], tuple(reroot_outer(a, parent) for a in t[3]))
+    if k == "bin":
+        return ("bin", t[1], reroot_outer(t[2], parent), reroot_outer(t[3], parent))
+    if k == "un":
+        return ("un", t[1], reroot_outer(t[2], parent))
+    if k == "cast":
+        return ("cast", t[1], reroot_outer(t[2], parent)) + tuple(t[3:])
+    if k == "agg":
+        return ("agg", t[1], t[2], tuple((f, reroot_outer(s, parent)) for f, s in t[3]))
+    if k in ("ref", "deref", "discr", "promoted"):
+        return (k, reroot_outer(t[1], parent))
+    if k == "field":
+        return ("field", reroot_outer(t[1], parent), t[2])
+    if k == "phi":
+        return ("phi", tuple(reroot_outer(s, parent) for s in t[1]))
+    return t
+
+
 def strip(t):
     """Look through refs, derefs recorded in paths, transparent casts and single-element phis."""
     while True:
@@ -498,6 +528,8 @@ def canon(t, body, depth=0, keep_index=False):
             root = body.local_name(r[1]) or ("arg%d" % r[1])
         elif r[0] == "local":
             root = body.local_name(r[1]) or ("_%d" % r[1])
+        elif r[0] == "outer":
+            root = r[1]
         else:
             root = r[0]
         f = [x for x in t[2] if x != "*" and not x.startswith("as ") and (keep_index or not x.startswith("[")) and not x.isdigit()]
